@@ -149,7 +149,10 @@ pub fn info_line(l: usize) -> Vec<u8> {
         2 => b"\r\n".to_vec(),
         _ => {
             assert!(l >= 7);
-            let mut v = b"INFO ".to_vec();
+            // a line that leaves a trace in the table (a PUBLIC record at an address derived from the line's length),
+            // so that a line which is silently dropped shows; lines too short for that are INFO lines
+            let head = format!("PUBLIC {l:x} 0 ");
+            let mut v = if l >= head.len() + 2 { head.into_bytes() } else { b"INFO ".to_vec() };
             v.resize(l - 1, b'x');
             v.push(b'\n');
             v
